@@ -11,7 +11,9 @@ Driver for C05.  Ops:
 * `c05.reasons`  — the same, on budget lists with a non-nil empty `reasons` list (known finding C05-empty-reasons)
 * `c05.mapping`  — `disruption.BuildDisruptionBudgetMapping` on a cluster
 * `c05.select`   — one method's `ComputeCommands` (+ its real validator) on a cluster
-* `c05.rounds`   — histories through the real `Controller.Reconcile` with the real orchestration queue
+* `c05.rounds`   — histories through the real `Controller.Reconcile` with the real orchestration queue; the queue's
+  life cycle (`start` / `finish` / informer `sync`, `Model/Budget.lean` §queue) is replayed along the event log and its
+  prediction of `StateNode.MarkedForDeletion()` compared with the real cluster state before every round
 
 The cron parameter of the model is instantiated with the answers the real `robfig/cron` gave for exactly the
 `(schedule, checkpoint)` pairs the code asks (table `cron` in the implementation's output); `allowed` also says whether
@@ -340,6 +342,28 @@ def opSelect (inp impl : Json) : Except String Resp := do
 
 /-! ### c05.rounds -/
 
+/-- a node of a round snapshot: "being deleted" for the specification is what an observer of the queue and the API
+    server sees (initially marked / held by a queued command / NodeClaim deleting in the API), never the cluster
+    state's own mark -/
+def parseSnapNode (j : Json) : Except String Node := do
+  let n ← parseNode j
+  let inFlight ← boolD j "inFlight" false
+  let apiDeleting ← boolD j "apiDeleting" false
+  pure { n with marked := n.marked || inFlight || apiDeleting }
+
+def ensureTracks (names : List String) (ts : List Track) : List Track :=
+  names.foldl (fun acc n => qstepCode acc (.appear n)) ts
+
+def trackOf (ts : List Track) (name : String) : Track :=
+  (ts.find? (fun t => t.name == name)).getD (Track.fresh name)
+
+/-- the life-cycle state the history starts from -/
+def initialTracks (nodes : List Json) : Except String (List Track) :=
+  nodes.mapM (fun j => do
+    let unmanaged ← boolD j "unmanaged" false
+    let deleting := (← boolD j "deleting" false) && !unmanaged
+    pure { name := ← strF j "name", mark := ← boolD j "marked" false, seen := deleting, api := deleting, inFlight := false })
+
 def opRounds (inp impl : Json) : Except String Resp := do
   let pools ← (← arrF inp "pools").mapM parsePool
   let tbl ← parseCronTable impl
@@ -352,7 +376,7 @@ def opRounds (inp impl : Json) : Except String Resp := do
   let adm := managed.all (fun p => nodesAdmissible p.budgets)
   let mut idx := 0
   for r in rounds do
-    let nodes ← (← arrF r "nodes").mapM parseNode
+    let nodes ← (← arrF r "nodes").mapM parseSnapNode
     let now ← intF r "nowNs"
     let cmds ← arrD r "commands"
     -- all commands of one reconcile come from one method, hence one reason
@@ -372,6 +396,52 @@ def opRounds (inp impl : Json) : Except String Resp := do
       if names.any (fun n => nodes.any (fun x => x.name == n && x.marked)) && relWhy.isEmpty then
         relWhy := s!"round {idx}: a node already marked for deletion was accepted again"
     idx := idx + 1
+  -- the queue's life cycle along the event log: where "being deleted" lives (in-memory mark / API / cluster state's
+  -- copy / queue), replayed with the model's step function and compared with the real cluster state before each round
+  let mut ts ← initialTracks (← arrD inp "nodes")
+  for e in (← arrD impl "log") do
+    let kind ← strF e "kind"
+    if kind == "reconcile" then
+      let ri := (← intF e "round").toNat
+      match rounds[ri]? with
+      | none => throw s!"log refers to round {ri}, which does not exist"
+      | some r =>
+        for j in (← arrF r "nodes") do
+          match fldOpt j "stateMarked" with
+          | none => pure ()
+          | some sm =>
+            let name ← strF j "name"
+            let t := trackOf ts name
+            let stateMarked ← asBool sm
+            let terminating ← boolD j "terminating" false
+            let inFlight ← boolD j "inFlight" false
+            let apiDeleting ← boolD j "apiDeleting" false
+            if relWhy.isEmpty then
+              if (inFlight || apiDeleting) && !stateMarked then
+                relWhy := s!"round {ri}: node {name} is held by a queued command or its NodeClaim is deleting in the API server (inFlight={inFlight}, apiDeleting={apiDeleting}), but the cluster state does not count it as marked for deletion (life-cycle invariant of the model, C05_lag_counted)"
+              else if t.inFlight != inFlight || t.api != apiDeleting then
+                relWhy := s!"round {ri}: node {name}: the model's queue/API state (inFlight={t.inFlight}, api={t.api}) differs from the real one (inFlight={inFlight}, apiDeleting={apiDeleting})"
+              else if (t.stateMarked || terminating) != stateMarked then
+                relWhy := s!"round {ri}: node {name}: the model predicts MarkedForDeletion()={t.stateMarked || terminating} (mark={t.mark}, seen={t.seen}), the real cluster state says {stateMarked}"
+        for c in (← arrD r "commands") do
+          let names ← strList (← fld c "names")
+          ts := ensureTracks names ts
+          if !(QStep.start names).pre ts && relWhy.isEmpty then
+            relWhy := s!"round {ri}: the command {names} was started on a node that the model has as marked for deletion or in flight"
+          ts := qstepCode ts (.start names)
+    else
+      for c in (← arrD e "cmds") do
+        let names ← strList (← fld c "names")
+        let ok ← boolF c "succeeded"
+        ts := ensureTracks names ts
+        if !(QStep.finish names ok).pre ts && relWhy.isEmpty then
+          relWhy := s!"event {kind}: the command {names} finished but the model does not have it in the queue"
+        ts := qstepCode ts (.finish names ok)
+    let synced ← match fldOpt e "synced" with | none => pure [] | some v => strList v
+    ts := ensureTracks synced ts
+    ts := qstepCode ts (.sync synced)
+    if !ts.all Track.inv && relWhy.isEmpty then
+      relWhy := s!"event {kind}: the life-cycle invariant of the model is violated"
   let relOk := relWhy.isEmpty
   pure { allowed := some (cok && relOk), spec := if adm then some specWhy.isEmpty else none,
          why := if !specWhy.isEmpty then specWhy else if !cok then cwhy else if !relOk then relWhy else specWhy }
